@@ -460,6 +460,7 @@ impl World {
             restarts: 0,
             fault: std::sync::Arc::new(FaultSwitch::default()),
             backup: None,
+            redb: None,
         }
     }
 
